@@ -48,3 +48,23 @@ HARMLESS = [
  {"id": "c06-h-delta-max", "prop": "C06", "file": "adcgen/sympy_objects.py",
   "old": "if i != min(i, j, key=sort_idx_canonical):", "new": "if i != max(i, j, key=sort_idx_canonical):"},
 ]
+_GS = "adcgen/groundstate.py"
+MUTANTS += [
+ {"id": "c02-psi-sign", "prop": "C02", "file": _GS, "old": "if excitation == 2:  # doubles", "new": "if excitation == 3:  # doubles"},
+ {"id": "c02-psi-pref", "prop": "C02", "file": _GS, "old": "Rational(1, factorial(excitation) ** 2)", "new": "Rational(1, factorial(excitation))"},
+ {"id": "c02-psi-nidx", "prop": "C02", "file": _GS, "old": "get_generic_indices(occ=2*order, virt=2*order)", "new": "get_generic_indices(occ=order, virt=2*order)"},
+ {"id": "c02-psi-range", "prop": "C02", "file": _GS, "old": "for excitation in range(1, order * 2 + 1):", "new": "for excitation in range(1, order * 2):"},
+ {"id": "c02-psi-swapped-amp", "prop": "C02", "file": _GS, "old": "t = Amplitude(tensor_name, virt, occ)", "new": "t = Amplitude(tensor_name, occ, virt)"},
+ {"id": "c02-psi-cached", "prop": "C02", "file": _GS, "old": "    def psi(self, order: int, braket: str):", "new": "    @cached_member\n    def psi(self, order: int, braket: str):"},
+ {"id": "c02-psi-singles", "prop": "C02", "file": _GS, "old": "if order == 1 and not self.singles and excitation == 1:", "new": "if not self.singles and excitation == 1:"},
+ {"id": "c02-energy-order", "prop": "C02", "file": _GS, "old": "            self.psi(order=order-1, braket='ket')\n        e = bra * h * ket", "new": "            self.psi(order=order, braket='ket')\n        e = bra * h * ket"},
+ {"id": "c02-energy-h", "prop": "C02", "file": _GS, "old": "h, rules = self.h.h0 if order == 0 else self.h.h1", "new": "h, rules = self.h.h0 if order <= 1 else self.h.h1"},
+ {"id": "c02-amp-minorder", "prop": "C02", "file": _GS, "old": "terms = gen_term_orders(order=order, term_length=2, min_order=1)", "new": "terms = gen_term_orders(order=order, term_length=2, min_order=0)"},
+ {"id": "c02-amp-sign", "prop": "C02", "file": _GS, "old": "            if n_ov[\"occ\"] == 2:  # doubles... special sign\n                ret += contrib", "new": "            if n_ov[\"occ\"] == 1:  # doubles... special sign\n                ret += contrib"},
+ {"id": "c02-amp-denom", "prop": "C02", "file": _GS, "old": "        if len(lower) == 2:  # doubles amplitude: a+b-i-j", "new": "        if len(lower) == 3:  # doubles amplitude: a+b-i-j"},
+ {"id": "c02-amp-bra", "prop": "C02", "file": _GS, "old": "        bra = self.h.excitation_operator(creation=lower, annihilation=upper,\n                                         reverse_annihilation=True)\n\n        # construct <k|H1|psi^(n-1)>", "new": "        bra = self.h.excitation_operator(creation=upper, annihilation=lower,\n                                         reverse_annihilation=True)\n\n        # construct <k|H1|psi^(n-1)>"},
+ {"id": "c02-amp-order-of-product", "prop": "C02", "file": _GS, "old": "ret = bra * h1 * self.psi(order-1, \"ket\")", "new": "ret = h1 * bra * self.psi(order-1, \"ket\")"},
+ {"id": "c02-resid-h0", "prop": "C02", "file": _GS, "old": "term = bra * h0 * self.psi(order, 'ket')", "new": "term = bra * h0 * self.psi(order - 1, 'ket')"},
+ {"id": "c02-resid-skip", "prop": "C02", "file": _GS, "old": "            if n_ov[\"occ\"] > 2 * t_order or \\", "new": "            if n_ov[\"occ\"] >= 2 * t_order or \\"},
+ {"id": "c02-overlap-minorder", "prop": "C02", "file": _GS, "old": "        orders = gen_term_orders(order=order, term_length=2, min_order=0)\n        res = 0\n        for term in orders:\n            # each wfn", "new": "        orders = gen_term_orders(order=order, term_length=2, min_order=1)\n        res = 0\n        for term in orders:\n            # each wfn"},
+]
